@@ -494,7 +494,10 @@ class ExprMixin:
                 raise Unsupported("truth of a guarded symbolic sequence")
             return v.n > 0
         if isinstance(v, ListTerm):
-            raise Unsupported("truth of a list term")
+            # a list is falsy iff it is empty (sound axiom on list terms)
+            from .sym import log_nil
+            self.ctx.assume(z3.Or(self.models.lt_nonempty(v.t), v.t == log_nil))
+            return self.models.lt_nonempty(v.t)
         if isinstance(v, (FuncV, ClassV, BoundV, SummaryFn)):
             return True
         return bool(v)
